@@ -80,7 +80,7 @@ type c02Env struct {
 	respGates  map[string]*c02RespGate
 	applyGates map[string]*c02ApplyGate
 	staleFetches int
-	f8Reached, f9Reached, f10Reached bool
+	f8Reached, f9Reached, f10Reached, f11Reached bool
 }
 
 func (e *c02Env) logf(format string, a ...interface{}) {
@@ -1076,7 +1076,7 @@ func c02F7(e *c02Env, rng *kit.RNG) {
 	e.settle("f7-end")
 }
 
-var c02Families = map[string]func(*c02Env, *kit.RNG){"F1": c02F1, "F2": c02F2, "F3": c02F3, "F4": c02F4, "F5": c02F5, "F6": c02F6, "F7": c02F7, "F8": c02F8, "F9": c02F9, "F10": c02F10}
+var c02Families = map[string]func(*c02Env, *kit.RNG){"F1": c02F1, "F2": c02F2, "F3": c02F3, "F4": c02F4, "F5": c02F5, "F6": c02F6, "F7": c02F7, "F8": c02F8, "F9": c02F9, "F10": c02F10, "F11": c02F11}
 
 // TestVerifC02 runs the scenarios of one family (env C02_FAMILY), one after
 // the other, each on a fresh cluster.
@@ -1087,7 +1087,7 @@ func TestVerifC02(t *testing.T) {
 	}
 	rep := kit.NewReport("C02", family)
 	defer rep.Write()
-	rep.SetRule("fault-sequence scenarios on real 3-server clusters (RF=3): F1 lagging follower + ISR shrink + leader death with uncommitted tail, F2 double failover with a replication-learned epoch boundary and the first leader rejoining with its tail, F3 follower restart then leader death, F4 shrink/commit/expand then leader death, F5 seeded random walks, F6 ISR re-expansion, F7 former leader re-elected, F8 a deposed leader's answer handled after the follower switched leaders (response held at the follower.afterFetch gate), F9 a follower that applies the leader change late keeps fetching with the old epoch from the new leader (partition.setLeader gate), F10 pause + resume of the stream after an ISR shrink and commits, leader death right after the resume; every replica is observed after each step and by a 40 ms sampler (HW first, then log content): offsets <= HW go into one committed table and must agree across replicas and time, every leader must hold all committed offsets and all ALL-acked tags; non-trivial = scenario completed all its steps (no watchdog) and saw >=1 leader change; distinct = family+seed")
+	rep.SetRule("fault-sequence scenarios on real 3-server clusters (RF=3): F1 lagging follower + ISR shrink + leader death with uncommitted tail, F2 double failover with a replication-learned epoch boundary and the first leader rejoining with its tail, F3 follower restart then leader death, F4 shrink/commit/expand then leader death, F5 seeded random walks, F6 ISR re-expansion, F7 former leader re-elected, F8 a deposed leader's answer handled after the follower switched leaders (response held at the follower.afterFetch gate), F9 a follower that applies the leader change late keeps fetching with the old epoch from the new leader (partition.setLeader gate), F11 leader death while both followers have received but not stored a batch (answers held at follower.afterFetch, dropped after the leader change), F10 pause + resume of the stream after an ISR shrink and commits, leader death right after the resume; every replica is observed after each step and by a 40 ms sampler (HW first, then log content): offsets <= HW go into one committed table and must agree across replicas and time, every leader must hold all committed offsets and all ALL-acked tags; non-trivial = scenario completed all its steps (no watchdog) and saw >=1 leader change; distinct = family+seed")
 	rep.Assume("network partitions between NATS clients are not simulated: a leader is isolated with the test-only pauseReplication switch and/or Server.Stop(); Stop() checkpoints the HW")
 	fn := c02Families[family]
 	if fn == nil {
@@ -1100,7 +1100,7 @@ func TestVerifC02(t *testing.T) {
 	if family == "F7" {
 		n = kit.Scale(2, 10) // the decisive election outcome is a coin flip
 	}
-	if family == "F8" || family == "F9" {
+	if family == "F8" || family == "F9" || family == "F11" {
 		n = kit.Scale(2, 8)
 	}
 	if family == "F10" {
@@ -1143,6 +1143,9 @@ func TestVerifC02(t *testing.T) {
 		if e.f8Reached {
 			rep.Count("f8_deposed_leaders_answer_handled_after_the_follower_switched", 1)
 		}
+		if e.f11Reached {
+			rep.Count("f11_leader_died_with_batch_received_but_not_stored_by_followers", 1)
+		}
 		if e.f10Reached {
 			rep.Count("f10_pause_resume_after_isr_shrink_reached", 1)
 		}
@@ -1151,7 +1154,7 @@ func TestVerifC02(t *testing.T) {
 		}
 		steps := append([]string(nil), e.steps...)
 		e.mu.Unlock()
-		if complete && (changes >= 2 || family == "F6") && (family != "F8" || e.f8Reached) && (family != "F9" || e.f9Reached) {
+		if complete && (changes >= 2 || family == "F6") && (family != "F8" || e.f8Reached) && (family != "F9" || e.f9Reached) && (family != "F11" || e.f11Reached) {
 			rep.Nontrivial(fmt.Sprintf("%s/%d", family, seed))
 		}
 		rep.Sample(map[string]any{"family": family, "seed": seed, "steps": steps})
